@@ -110,3 +110,32 @@ def member(ctx, obj, value: int, divisors=(8, 16, 32, 64), expand_limit=3000):
         if value % d not in set(obj % d):
             return False, "residue %d mod %d not in %s" % (value % d, d, sorted(obj % d))
     return True, "residues"
+
+
+def live_difference(ctx, a, b, divisors=DEFAULT_DIVS, expand_limit=2048):
+    """First observable difference between two live BitLengthSet objects, or None."""
+    ctx.mon("bls-live-compare")
+    if (a.min, a.max, a.fixed_length) != (b.min, b.max, b.fixed_length):
+        return "min/max %s/%s vs %s/%s" % (a.min, a.max, b.min, b.max)
+    try:
+        ta, tb = R.parse(str(a)), R.parse(str(b))
+    except ValueError:
+        return None
+    da = set(affordable_divisors(ta, divisors)) & set(affordable_divisors(tb, divisors))
+    for d in sorted(da):
+        if set(a % d) != set(b % d):
+            return "%% %d: %s vs %s" % (d, sorted(a % d), sorted(b % d))
+    try:
+        for t in (ta, tb):
+            if R.ref_max(t) > 100000:
+                raise R.TooBig
+            im = {}
+            if R.popcount(R.ref_expand_mask(t, limit_bits=1 << 17, _memo=im)) > expand_limit:
+                raise R.TooBig
+            R.CostMeter(100000).expand(t, im)
+        ctx.mon("bls-live-expand")
+        if set(a) != set(b):
+            return "expansions differ: %s vs %s" % (sorted(set(a) - set(b))[:6], sorted(set(b) - set(a))[:6])
+    except R.TooBig:
+        pass
+    return None
